@@ -231,7 +231,7 @@ def _run(ctx, pr, uid):
             key = f[0].split(" ")[0]
             pred_kinds[key] = pred_kinds.get(key, 0) + 1
             if nfail <= 3:
-                ctx.violation("impl_violates_predicate", "C06_store_exact/C06_accept_criterion/"
+                ctx.violation("impl_violates_predicate", "C06_store_exact/C06_unreceived_unknown/C06_accept_criterion/"
                               "C06_bounded/C06_codec_roundtrip",
                               {"case": c, "fails": f[:10]},
                               signature="shachain case kind=%s %s" % (c["kind"], f[0]))
